@@ -243,6 +243,43 @@ static void do_scanseq(YR_RULES* rules, const uint8_t* b1, size_t l1, const uint
   yr_scanner_destroy(sc);
 }
 
+// scanblocks: a scan over `nblocks` blocks of `bsize` bytes whose iterator takes `sleep_ms` to deliver each next block
+// (a slow memory reader); with a timeout the scan must notice the deadline at a block boundary however small the blocks are
+typedef struct { YR_MEMORY_BLOCK blk; uint8_t* data; int n, i, sleep_ms; size_t bsize; } BLKIT;
+static const uint8_t* blk_fetch(YR_MEMORY_BLOCK* b) { return ((BLKIT*) b->context)->data; }
+static YR_MEMORY_BLOCK* blk_get(BLKIT* it)
+{
+  if (it->i >= it->n) return NULL;
+  it->blk.size = it->bsize; it->blk.base = (uint64_t) it->i * it->bsize; it->blk.context = it; it->blk.fetch_data = blk_fetch;
+  return &it->blk;
+}
+static YR_MEMORY_BLOCK* blk_first(YR_MEMORY_BLOCK_ITERATOR* self) { BLKIT* it = (BLKIT*) self->context; it->i = 0; self->last_error = ERROR_SUCCESS; return blk_get(it); }
+static YR_MEMORY_BLOCK* blk_next(YR_MEMORY_BLOCK_ITERATOR* self)
+{
+  BLKIT* it = (BLKIT*) self->context;
+  struct timespec ts = {it->sleep_ms / 1000, (long) (it->sleep_ms % 1000) * 1000000L};
+  nanosleep(&ts, NULL);
+  it->i++; self->last_error = ERROR_SUCCESS;
+  return blk_get(it);
+}
+static void do_scanblocks(YR_RULES* rules)
+{
+  BLKIT it; memset(&it, 0, sizeof it);
+  it.n = (int) geti("nblocks", 4); it.bsize = (size_t) geti("bsize", 64); it.sleep_ms = (int) geti("sleep_ms", 100);
+  it.data = (uint8_t*) malloc(it.bsize + 1); memset(it.data, 'a', it.bsize);
+  YR_MEMORY_BLOCK_ITERATOR iter; memset(&iter, 0, sizeof iter);
+  iter.context = &it; iter.first = blk_first; iter.next = blk_next; iter.file_size = NULL; iter.last_error = ERROR_SUCCESS;
+  SCANOBS o; memset(&o, 0, sizeof o); o.tmm_mode = 'c'; o.prefix = "zz"; o.mmd = 1 << 30;
+  YR_SCANNER* sc = NULL;
+  if (yr_scanner_create(rules, &sc) != ERROR_SUCCESS) { printf(" S=SCANNER"); free(it.data); return; }
+  yr_scanner_set_callback(sc, scan_cb, &o);
+  yr_scanner_set_timeout(sc, (int) geti("timeout", 1));
+  double t0 = now_s();
+  int rc = yr_scanner_scan_mem_blocks(sc, &iter);
+  printf(" S=%s t=S:%.3f t=blocks:%d", errname(rc), now_s() - t0, it.i);
+  yr_scanner_destroy(sc); free(it.data);
+}
+
 static void sanity(void)
 {
   // library usable afterwards: default configuration, fresh compiler, fresh scan
@@ -455,6 +492,12 @@ int main()
       YR_RULES* r = do_compile("text", 1);
       if (r) yr_rules_destroy(r);
       reset_cfg();
+      sanity();
+    }
+    else if (!strcmp(cmd, "scanblocks"))
+    {
+      YR_RULES* r = do_compile("text", 1);
+      if (r) { do_scanblocks(r); yr_rules_destroy(r); }
       sanity();
     }
     else if (!strcmp(cmd, "scanseq"))
